@@ -22,8 +22,26 @@ RUN_FN = "run_case"
 CHECK_FN = "check_case"
 INPUT_TYPE = "input"
 
-KINDS = {"xff": "HXff", "real": "HReal", "scheme": "HScheme", "proto": "HProto", "other": "HOther"}
-CANON = {"xff": "X-Forwarded-For", "real": "X-Real-Ip", "scheme": "X-Scheme", "proto": "X-Forwarded-Proto"}
+def pre_build():
+    """regenerate Gen/C32_src.v (the bodies of _apply_xheaders/_unapply_xheaders, the is_valid_ip guard and the
+    _ProxyAdapter call sequences) from the working tree; fails closed"""
+    import importlib
+    import os
+    import sys
+    from harness.framework import REPO, COQ
+    sys.path.insert(0, os.path.join(os.path.dirname(COQ), "translators"))
+    import c32_src
+    importlib.reload(c32_src)
+    c32_src.emit(REPO, os.path.join(COQ, "Gen", "C32_src.v"))
+
+
+CANON = {"xff": "X-Forwarded-For", "real": "X-Real-Ip", "scheme": "X-Scheme", "proto": "X-Forwarded-Proto", "conn": "Connection"}
+BY_LOWER = {v.lower(): k for k, v in CANON.items()}
+
+
+def kind_of(name):
+    """HTTP field names are case-insensitive (independent of tornado's _normalize_header)"""
+    return BY_LOWER.get(name.lower(), "other")
 # how a request goes -> constructor of C32.Model.how
 CLOSE_HOWS = ("body_error", "eof_body", "hdr_raise", "hdr_input_error")
 
@@ -31,13 +49,13 @@ CLOSE_HOWS = ("body_error", "eof_body", "hdr_raise", "hdr_input_error")
 def model_how(r):
     h = r["how"]
     if h == "badhead":
-        return "BadHead"
+        return "RBadHead"
     if h == "ok":
-        return "(Finish %s)" % G.gbool(bool(r.get("ka", True)))
+        return "(RFinish %s)" % G.gbool(not r.get("http10"))
     if h == "finish_raise":
-        return "FinishRaises"
+        return "RFinishRaises"
     if h in CLOSE_HOWS:
-        return "CloseRaises" if r.get("close_raises") else "Close"
+        return "RCloseRaises" if r.get("close_raises") else "RClose"
     raise ValueError(h)
 
 
@@ -67,7 +85,7 @@ def raw_gai(s):
 
 
 def joined(req, kind):
-    vs = [v for k, _n, v in req["h"] if k == kind]
+    vs = [v for _k, n, v in req["h"] if kind_of(n) == kind]
     return ",".join(vs) if vs else None
 
 
@@ -212,7 +230,7 @@ def _make_server(case, rec):
 
     app = callback if case["style"] == "cb" else App()
     return Srv(app, xheaders=True, trusted_downstream=(list(case["trusted"]) if case["trusted"] is not None else None),
-               protocol=case["proto"])
+               protocol=case["proto"], no_keep_alive=bool(case.get("nka")))
 
 
 def wire_bytes(i, r):
@@ -231,10 +249,6 @@ def wire_bytes(i, r):
         head += b"X-Real-Ip: 7.7.7.7\x01\r\n"
     if how == "badhead" and r.get("bad") == "nocolon":
         head += b"no colon here\r\n"
-    if how == "ok" and not r.get("ka", True) and not r.get("http10"):
-        head += b"Connection: close\r\n"
-    if how == "ok" and r.get("ka", True) and r.get("http10"):
-        head += b"Connection: keep-alive\r\n"
     body, eof = b"", False
     if how == "body_error":
         head += b"Transfer-Encoding: chunked\r\n"
@@ -303,6 +317,7 @@ def run_direct(case, rec):
     HTTPServer.start_request / _ProxyAdapter / _HTTPRequestContext."""
     from tornado import httputil
     from tornado.httpserver import _HTTPRequestContext
+    from tornado.http1connection import HTTP1Connection
     fam = _family(case)
     stream = types.SimpleNamespace(socket=(types.SimpleNamespace(family=fam) if fam is not None else None))
     srv = _make_server(case, rec)
@@ -337,7 +352,9 @@ def run_direct(case, rec):
                 h._combined_cache.pop(norm, None)
             else:
                 h[name] = val
-        sl = httputil.RequestStartLine("GET", "/r%d" % i, "HTTP/1.1")
+        sl = httputil.RequestStartLine("GET", "/r%d" % i, "HTTP/1.0" if r.get("http10") else "HTTP/1.1")
+        # the keep-alive decision of the real HTTP1Connection for this start line / headers
+        keep = HTTP1Connection._can_keep_alive(types.SimpleNamespace(params=srv.conn_params), sl, h)
 
         def closing():
             try:
@@ -358,7 +375,7 @@ def run_direct(case, rec):
             d.finish()
         except Boom:
             return
-        if not r.get("ka", True):
+        if not keep:
             return
     srv.start_request(server_conn, Conn())     # the loop waits for the next request; EOF
 
@@ -394,14 +411,23 @@ def coq_input(case):
     tbl = G.glist(["(%s, %s)" % (gstr(k), G.gbool(b)) for k, b in table_for(case)], "(str * bool)")
     reqs = []
     for r in case["reqs"]:
-        hs = G.glist(["(%s, %s)" % (KINDS[k], gstr(v)) for k, _n, v in r["h"]], "header")
+        hs = G.glist(["(%s, %s)" % (gstr(n), gstr(v)) for _k, n, v in r["h"]], "raw_header")
         reqs.append("(%s, %s)" % (hs, model_how(r)))
-    return "(%s, %s, %s, %s, %s, %s)" % (fam, addr, proto, tr, tbl, G.glist(reqs, "request"))
+    return "(%s, %s, %s, %s, %s, %s, %s)" % (fam, addr, proto, tr, G.gbool(bool(case.get("nka"))), tbl, G.glist(reqs, "raw_request"))
 
 
 # ---------------------------------------------------------------------------------------
 # independent Python oracle of the property on the implementation's observable
 # ---------------------------------------------------------------------------------------
+def keeps_alive(case, r):
+    """RFC-style reading of the keep-alive decision for a complete GET request"""
+    if r["how"] != "ok" or case.get("nka"):
+        return False
+    conn = joined(r, "conn")
+    conn = conn.lower() if conn is not None else None
+    return conn == "keep-alive" if r.get("http10") else conn != "close"
+
+
 def py_check(case, o):
     if not isinstance(o, list) or len(o) != 4:
         return False
@@ -450,7 +476,7 @@ def py_check(case, o):
         if proto != want:
             return False
         last = (r, [ip, proto])
-        if not (r["how"] == "ok" and r.get("ka", True)):
+        if not keeps_alive(case, r):
             break
     if k != len(seen):
         return False
@@ -550,7 +576,10 @@ def gen_headers(rng, direct, trusted, dense):
 
 
 def gen_req(rng, direct, style, trusted, last):
-    r = {"h": gen_headers(rng, direct, trusted, rng.random() < 0.7), "how": "ok", "ka": True}
+    r = {"h": gen_headers(rng, direct, trusted, rng.random() < 0.7), "how": "ok"}
+
+    def conn(val):
+        r["h"].insert(rng.randrange(len(r["h"]) + 1), ["conn", casing(rng, "Connection"), val])
     x = rng.random()
     if x < (0.45 if last else 0.12):
         hows = ["ok_close", "ok_close", "finish_raise", "badhead"]
@@ -558,8 +587,12 @@ def gen_req(rng, direct, style, trusted, last):
             hows += ["body_error", "eof_body", "hdr_raise", "hdr_input_error", "body_error_cr", "eof_body_cr", "hdr_raise_cr"]
         h = rng.choice(hows)
         if h == "ok_close":
-            r["ka"] = False
             r["http10"] = rng.random() < 0.3
+            if r["http10"]:
+                if rng.random() < 0.5:
+                    conn(rng.choice(["close", "keep-alive, x", "Keep-Alive,", "upgrade", ""]))
+            else:
+                conn(rng.choice(["close", "Close", "CLOSE", "cLoSe"]))
         elif h.endswith("_cr"):
             r["how"], r["close_raises"] = h[:-3], True
         else:
@@ -568,10 +601,14 @@ def gen_req(rng, direct, style, trusted, last):
             r["bad"] = rng.choice(["startline", "ctl", "nocolon"])
         if r["how"] == "finish_raise":
             r["respond_first"] = rng.random() < 0.5
-    elif x < 0.6 and rng.random() < 0.2:
+    elif x < 0.6 and rng.random() < 0.25:
         r["http10"] = True          # HTTP/1.0 with Connection: keep-alive
+        conn(rng.choice(["keep-alive", "Keep-Alive", "KEEP-ALIVE"]))
+    elif x < 0.75 and rng.random() < 0.3:   # HTTP/1.1 with a Connection header that is not exactly "close"
+        for v in rng.choice([["keep-alive"], ["upgrade"], ["close, te"], ["close", "close"], [""], ["closed"], ["Keep-Alive"], ["close\xa0"]]):
+            conn(v)
     if r["how"] == "ok":
-        r["body"] = rng.choice([None, None, "cl", "chunked"])
+        r["body"] = rng.choice([None, None, "cl", "chunked"]) if not r.get("http10") else rng.choice([None, "cl"])
         r["delay"] = rng.choice([0, 0, 1, 3])
     if not direct and rng.random() < 0.3:
         r["pad"] = [rng.choice(["", " ", "\t", "  "]), rng.choice(["", " ", "\t "])]
@@ -587,7 +624,7 @@ def gen_conn(rng, direct=None, nreq=None):
         trusted = (trusted or []) + [addr]
     n = nreq if nreq is not None else rng.choice([1, 2, 2, 3, 3, 4, 5])
     case = {"mode": "direct" if direct else "wire", "style": style, "fam": fam, "addr": addr,
-            "proto": rng.choice([None, None, None, "https", "http", "", "spdy"]), "trusted": trusted,
+            "proto": rng.choice([None, None, None, "https", "http", "", "spdy"]), "trusted": trusted, "nka": rng.random() < 0.08,
             "reqs": [gen_req(rng, direct, style, trusted or [], i == n - 1) for i in range(n)]}
     if not direct:
         case["feed"] = rng.choice(["each", "each", "pipelined", "split"])
@@ -604,7 +641,6 @@ def mk(reqs, trusted=None, mode="wire", style="cb", fam="inet", addr="9.9.9.9", 
         r = dict(r)
         r["h"] = [[k, CANON.get(k, "X-Other"), v] for k, v in r["h"]]
         r.setdefault("how", "ok")
-        r.setdefault("ka", True)
         rs.append(r)
     c = {"mode": mode, "style": style, "fam": fam, "addr": addr, "proto": proto, "trusted": trusted, "reqs": rs}
     c.update(kw)
@@ -640,7 +676,10 @@ def corpus_cases():
         mk([{"h": [("real", "5.5.5.5")], "how": "body_error"}, []], style="dg"),
         mk([{"h": [("real", "5.5.5.5")], "how": "eof_body"}], style="dg", feed="split", cuts=[30, 30, 30, 30]),
         mk([{"h": [("real", "5.5.5.5")], "how": "badhead", "bad": "ctl"}, []]),
-        mk([{"h": [("real", "5.5.5.5")], "how": "ok", "ka": False}, [("real", "6.6.6.6")]]),
+        mk([{"h": [("real", "5.5.5.5"), ("conn", "close")], "how": "ok"}, [("real", "6.6.6.6")]]),
+        mk([{"h": [("real", "5.5.5.5"), ("conn", "close, te")], "how": "ok"}, [("real", "6.6.6.6")]]),
+        mk([{"h": [("real", "5.5.5.5"), ("conn", "Keep-Alive")], "how": "ok", "http10": True}, {"h": [("proto", "https")], "how": "ok", "http10": True}, []]),
+        mk([[("real", "5.5.5.5")], []], nka=True),
         # unix socket / no socket / protocol option
         mk([[("real", "4.4.4.4")], []], fam="unix", addr="x"),
         mk([[("scheme", "http")], []], proto="https"),
@@ -676,6 +715,15 @@ def exhaustive(tier):
             for proto in (None, "https"):
                 h = ([("scheme", a)] if a is not None else []) + ([("proto", b)] if b is not None else [])
                 out.append(mk([h, []], proto=proto))
+    # Connection value x HTTP version x no_keep_alive: does the second request get served?
+    for cv in [None, "close", "Close", "CLOSE", "keep-alive", "Keep-Alive", "close, x", "", "upgrade", "keep-alive,close"]:
+        for http10 in (False, True):
+            for nka in (False, True):
+                for second_line in ((None,) if tier == "quick" else (None, "close", "keep-alive")):
+                    h = [("real", "6.6.6.6"), ("scheme", "https")] + ([("conn", cv)] if cv is not None else []) \
+                        + ([("conn", second_line)] if second_line is not None else [])
+                    out.append(mk([{"h": h, "how": "ok", "http10": http10}, {"h": [], "how": "ok", "http10": http10}, []], nka=nka,
+                                  feed="pipelined" if (len(out) % 2) else "each", mode="direct" if len(out) % 5 == 0 else "wire"))
     return out
 
 
@@ -698,7 +746,7 @@ def nontrivial(case, o):
     if not any(r["h"] for r in case["reqs"]):
         return None
     return json.dumps([case["fam"], case["addr"], case["proto"], case["trusted"],
-                       [[[k, v] for k, _n, v in r["h"]] + [model_how(r)] for r in case["reqs"]]], sort_keys=True)
+                       bool(case.get("nka")), [[[n.lower(), v] for _k, n, v in r["h"]] + [model_how(r)] for r in case["reqs"]]], sort_keys=True)
 
 
 def classify(case, o):
@@ -708,7 +756,9 @@ def classify(case, o):
     yield "sock=" + case["fam"]
     for r in case["reqs"]:
         yield "how=" + model_how(r).strip("()")
-        ks = sorted({k for k, _n, _v in r["h"]})
+        if r["how"] == "ok":
+            yield "keeps_alive=%s" % keeps_alive(case, r)
+        ks = sorted({kind_of(n) for _k, n, _v in r["h"]})
         yield "hdrs=" + ("+".join(ks) if ks else "none")
     if isinstance(o, list) and len(o) == 4:
         ip0 = sock_ip(case)
@@ -763,8 +813,10 @@ TRUSTED_BASE = [
     "that can reach is_valid_ip and hands them to the model as a table; tornado's own is_valid_ip (guard + exception mapping) is compared with "
     "the model's valid_ip on every table key, and with a textual IPv4/IPv6 recogniser where that one is decisive",
     "HTTP1Connection/_read_message is modelled only as the order of delegate calls per request (headers_received, then finish or on_connection_close; "
-    "which requests are read at all): header parsing, bodies, keep-alive decisions are the real code in wire mode but are not part of the model",
-    "HTTPHeaders.get is modelled as: values of equal normalised name joined by ','; name normalisation itself is exercised by the generator (random casing, decoy names) but not modelled",
+    "which requests are read at all): header parsing and body framing are the real code in wire mode but are not part of the model",
+    "HTTPHeaders.get is modelled as: values of equal normalised name joined by ','; _normalize_header is modelled on ASCII names (one-pass capitalisation), the generator sends re-cased and decoy names",
+    "HTTP1Connection._can_keep_alive is modelled for GET requests (no_keep_alive option, HTTP/1.0 vs 1.1, Connection value lower-cased on ASCII letters); the response side never forces a close here (Content-Length: 0 responses)",
+    "translators/c32_src.py (strict ast reader of _apply_xheaders, _unapply_xheaders, the is_valid_ip guard and the _ProxyAdapter methods; exact-text checks of the rest of is_valid_ip, _cleanup, start_request, the saved originals; fails closed) and the interpreter coq/C32/Ast.v",
     "str.strip whitespace table (Py_UNICODE_ISSPACE, 29 code points) copied from CPython",
     "SSLIOStream (protocol 'https' by stream type) is in the model (`ssl` flag) but the harness only builds non-SSL streams; https origins come from HTTPServer(protocol='https')",
 ]
@@ -773,9 +825,9 @@ ASSUMPTIONS = [
     "getaddrinfo answers are deterministic on this host during one run",
 ]
 RULE = ("connections of 1-5 requests (wire 65% / direct 35%), headers from pools of IPv4/IPv6/shorthand/scoped/garbage/Latin-1/NUL strings, lists with trusted "
-        "entries, repeated and re-cased header lines, decoys; request endings ok/close/HTTP-1.0/bad head/body error/EOF/application raises; plus exhaustive "
+        "entries, repeated and re-cased header lines, decoys, Connection headers (close/keep-alive/near misses) x HTTP/1.0|1.1 x no_keep_alive; request endings ok/bad head/body error/EOF/application raises; plus exhaustive "
         "X-Forwarded-For lists over a 5-symbol alphabet (length <= 2 quick, <= 4 thorough) x 4 X-Real-Ip choices and all 7x7x2 protocol-header pairs, each followed "
-        "by a bare request; distinct by (socket, protocol option, trusted set, header kinds+values, endings); non-trivial = some request carries a header")
+        "by a bare request, and all 10 Connection values x version x no_keep_alive; distinct by (socket, protocol option, trusted set, header kinds+values, endings); non-trivial = some request carries a header")
 LEVEL_TEXT = ("Machine-checked (Coq) model of _HTTPRequestContext.__init__/_apply_xheaders/_unapply_xheaders, _ProxyAdapter and the per-request delegate protocol, "
               "with theorems for every header list, trusted set, getaddrinfo behaviour and request history: the rewritten remote_ip is the socket address or the "
               "declared candidate accepted by is_valid_ip (X-Real-Ip first, else the rightmost X-Forwarded-For entry not in trusted_downstream), the protocol is "
